@@ -1,12 +1,7 @@
 CONSTANTS
-  Variant = "code"
+  Variant = "esa-side"
   MaxNE = 2
   TransferModes = {"identity", "population", "coherence", "all"}
 SPECIFICATION Spec
-INVARIANT Complete
 INVARIANT Sound
-INVARIANT ExactExceptR2g
-INVARIANT Signs
-INVARIANT Disjoint
-INVARIANT Counts
 CHECK_DEADLOCK FALSE
